@@ -65,7 +65,7 @@ func newRefSTS(peerEph []byte, lower bool) *refSTS {
 			return e
 		}
 	}
-	panic("harness: no ephemeral key with the wanted order in 200 draws")
+	panic(fmt.Sprintf("harness: no ephemeral key with the wanted order in 200 draws peer=%x lower=%v mine=%x", peerEph, lower, e.ephPub))
 }
 
 func ephMsg(pub []byte) []byte {
